@@ -624,6 +624,36 @@ def md5_term(data):
     return f(z3.simplify(z3.Concat(*parts)) if n > 1 else parts[0])
 
 
+class SDigest:
+    """md5().digest() of the uninterpreted hash: a 16-byte sequence whose elements are symbolic integers 0..255"""
+
+    def __init__(self, dig):
+        self.dig = dig
+
+    def __len__(self):
+        return 16
+
+    def _byte(self, i):
+        return SInt.unsigned(z3.Extract(127 - 8 * i, 120 - 8 * i, self.dig))
+
+    def __getitem__(self, i):
+        if isinstance(i, slice):
+            return [self._byte(j) for j in range(*i.indices(16))]
+        if isinstance(i, SInt):
+            raise EngineError("digest indexed by a symbolic integer")
+        if i < 0:
+            i += 16
+        if not 0 <= i < 16:
+            raise IndexError("index out of range")
+        return self._byte(i)
+
+    def __iter__(self):
+        return iter([self._byte(j) for j in range(16)])
+
+    def hex(self):
+        return SStr(core.LazyChars(32, lambda i: core.hex_char_of_nibble(z3.Extract(127 - 4 * i, 124 - 4 * i, self.dig))))
+
+
 class Md5Stub:
     """hashlib.md5 stand-in: the digest is an uninterpreted function of the input bytes."""
 
@@ -662,7 +692,7 @@ class Md5Stub:
     def digest(self):
         if self._real is not None:
             return self._real.digest()
-        raise EngineError("md5().digest()")
+        return SDigest(self.dig)
 
     def update(self, data):
         raise EngineError("md5().update()")
@@ -682,6 +712,9 @@ def model_md5(model, recorder=None):
 
         def hexdigest(self):
             return self._hex
+
+        def digest(self):
+            return bytes.fromhex(self._hex)
     return _M
 
 
